@@ -109,12 +109,15 @@ theorem server_to_client_stream (ks : Bytes → Bytes → Nat → UInt8) (sha : 
   rw [← hs.2] at hwire
   exact read_write ks ck.decrypt writes chunks hwire
 
-/-- **A read that ends with an error still decrypts** (tie: `Obfuscated2.Read` applies the keystream
-to the `n` bytes before looking at the error — fact `readDecryptsWithError`): bytes that the
-connection delivers together with an error such as `io.EOF` — which `io.ReadFull` hands on as data —
-are plaintext, so the stream theorems hold for such connections too. -/
-theorem read_decrypts_with_error (X : Cipher) (errLast : Bool) (s : Stream) (chunks : List Bytes) :
-    readAllE X errLast s chunks = readAll X s chunks := readAllE_eq X errLast chunks s
+/-- **A read that comes with an error still decrypts** (tie: `Obfuscated2.Read` never returns before
+`XORKeyStream` — fact `readSkipsDecryptOn = 0`, interpreted by `readOne`): bytes that the connection
+delivers together with `io.EOF` or with any other error — which callers must process and which
+`io.ReadFull` hands on as data — are plaintext and advance the keystream, so the stream theorems hold
+for such connections too. -/
+theorem read_decrypts_with_error (X : Cipher) (s : Stream) (chunks : List (Bytes × RdErr)) :
+    readAllE X s chunks = readAll X s (chunks.map (·.1)) := readAllE_eq X chunks s
+
+theorem read_never_skips_decryption : Facts.C18.readSkipsDecryptOn = 0 := by decide
 
 /-- **Obfuscated transport** (the "with obfuscation" case of C16, composed): a codec's frames written
 through the client's obfuscated2 writer in any write sizes, cut into reads in any way, and
